@@ -1,6 +1,7 @@
 package c17
 
 import (
+	"crypto/sha1"
 	"fmt"
 	"testing"
 
@@ -75,7 +76,8 @@ func checkHuge(c HugeCase) error {
 		return err
 	}
 	want := expectedCount(m)
-	seen := map[string]int{before: -1}
+	key := func(text string) [20]byte { return sha1.Sum([]byte(text)) }
+	seen := map[[20]byte]int{key(before): -1}
 	i := 0
 	var ferr error
 	(&tree.NNIRearranger{}).Rearrange(t, func(r tree.Rearrangement) bool {
@@ -84,11 +86,11 @@ func checkHuge(c HugeCase) error {
 			return false
 		}
 		text := t.Newick()
-		if j, dup := seen[text]; dup {
+		if j, dup := seen[key(text)]; dup {
 			ferr = fmt.Errorf("proposal %d gives the same text as proposal %d (-1: the original)", i, j)
 			return false
 		}
-		seen[text] = i
+		seen[key(text)] = i
 		if i%40 == 0 {
 			m1, err := ref.Parse(text)
 			if err != nil {
